@@ -56,7 +56,7 @@ fn mangle_case(v: &str, bits: u16) -> String {
 
 fn grammar_line() -> impl Strategy<Value = LineCase> {
     (
-        0usize..8,                                           // leading blanks (0 mostly)
+        0usize..12,                                          // leading blanks (0 mostly, up to 6)
         prop::option::weighted(0.15, 0usize..4),             // source
         (0usize..VERBS.len(), any::<u16>(), 0u8..4),         // verb, case bits, mangle?
         prop::collection::vec((0usize..MIDDLES.len(), 1usize..4), 0..6),
